@@ -199,6 +199,9 @@ func (s *KVSnapshot) SetSnapshotTS(ts uint64) {
 	s.mu.Unlock()
 	// And also remove the minCommitTS pushed information.
 	s.resolvedLocks = util.TSSet{}
+	// A transaction read through as committed (commit ts <= the old timestamp) need not be committed at the new
+	// timestamp: forget them as well, the next read decides again.
+	s.committedLocks = util.TSSet{}
 }
 
 // IsInternal returns if the KvSnapshot is used by internal executions.
